@@ -550,3 +550,19 @@ def field_chain(body, du, op, depth=8):
                 nxt = s["args"][0]
         op = nxt
     return out
+
+
+def value_root(du, l, depth=16):
+    """Follow `l = move/copy m` (single definition, whole value) back to the local the value was first put in."""
+    n = 0
+    while n < depth:
+        n += 1
+        ds = du.defs.get(l, [])
+        if len(ds) != 1 or ds[0][2] != "assign" or ds[0][3]["lhs"]["proj"]:
+            return l
+        rv = ds[0][3]["rhs"]
+        if rv["k"] == "use" and rv["a"]["k"] in ("copy", "move") and not rv["a"]["p"]["proj"]:
+            l = rv["a"]["p"]["l"]
+        else:
+            return l
+    return l
